@@ -356,6 +356,7 @@ func runMuxer(kind string, table []triple, host, user string) string {
 	}
 	defer c.Close()
 	_ = c.SetDeadline(time.Now().Add(8 * time.Second))
+	refused := make(chan struct{})
 	canon := strings.TrimSuffix(strings.ToLower(host), ".")
 	if h, _, e := net.SplitHostPort(canon); e == nil {
 		canon = strings.TrimSuffix(h, ".")
@@ -370,6 +371,12 @@ func runMuxer(kind string, table []triple, host, user string) string {
 			target += ":443"
 		}
 		fmt.Fprintf(c, "CONNECT %s HTTP/1.1\r\nHost: %s\r\n%s\r\n", target, target, auth)
+		go func() {
+			line, err := bufio.NewReader(c).ReadString('\n')
+			if err != nil || !strings.Contains(line, " 200") {
+				close(refused)
+			}
+		}()
 	} else {
 		go tls.Client(c, &tls.Config{ServerName: host, InsecureSkipVerify: true}).Handshake()
 		user = ""
@@ -377,6 +384,10 @@ func runMuxer(kind string, table []triple, host, user string) string {
 	}
 	want, ok := spec(ref, canon, "", user)
 	select {
+	case <-refused:
+		if ok {
+			return fmt.Sprintf("%s for host %q user %q refused, expected %v", kind, host, user, want)
+		}
 	case who := <-got:
 		if !ok {
 			return fmt.Sprintf("%s for host %q user %q delivered to %s although no route matches", kind, host, user, who)
@@ -490,12 +501,43 @@ func main() {
 		}
 	}
 
-	// (3)
-	mtables := [][]triple{
-		{{"a.x.com", "", ""}, {"*.x.com", "", ""}, {"*", "", ""}},
-		{{"a.x.com", "", "u1"}, {"a.x.com", "", ""}, {"*.b.x.com", "", ""}},
-		{{"*.x.com", "", "u1"}},
+	// (3) every table of <= 2 (thorough: 3) muxer routes over 4 hosts x 2 users, every request host x user
+	var mroutes []triple
+	for _, h := range []string{"a.x.com", "*.x.com", "*.b.x.com", "*"} {
+		for _, u := range []string{"", "u1"} {
+			mroutes = append(mroutes, triple{h, "", u})
+		}
 	}
+	var mtables [][]triple
+	maxSz := 2
+	if !c.Quick() {
+		maxSz = 3
+	}
+	var rec func(start int, cur []triple)
+	rec = func(start int, cur []triple) {
+		if len(cur) > 0 {
+			mtables = append(mtables, append([]triple{}, cur...))
+		}
+		if len(cur) == maxSz {
+			return
+		}
+		for i := start; i < len(mroutes); i++ {
+			rec(i+1, append(cur, mroutes[i]))
+		}
+	}
+	rec(0, nil)
+	type mcase struct {
+		Kind  string   `json:"kind"`
+		Table []triple `json:"table"`
+		Host  string   `json:"host"`
+		User  string   `json:"user"`
+	}
+	drv.E2Replayers["mux"] = func(raw json.RawMessage) string {
+		var mc mcase
+		json.Unmarshal(raw, &mc)
+		return runMuxer(mc.Kind, mc.Table, mc.Host, mc.User)
+	}
+	var mcases []mcase
 	for _, kind := range []string{"connect", "sni"} {
 		for _, tb := range mtables {
 			for _, h := range []string{"a.x.com", "A.X.Com", "c.b.x.com", "z.org", "x.com"} {
@@ -503,13 +545,29 @@ func main() {
 					if kind == "sni" && u != "" {
 						continue
 					}
-					c.Count(fmt.Sprintf("mux:%s:%v:%s:%s", kind, tb, h, u))
-					if e := runMuxer(kind, tb, h, u); e != "" {
-						c.Violate("mux", "mux:"+e, fmt.Sprintf("table %v: %s", tb, e), map[string]any{"kind": kind, "table": tb, "host": h, "user": u})
-					}
+					mcases = append(mcases, mcase{kind, tb, h, u})
 				}
 			}
 		}
 	}
+	var mu sync.Mutex
+	var wg sync.WaitGroup
+	sem := make(chan struct{}, 32)
+	for _, mc := range mcases {
+		mc := mc
+		c.Count(fmt.Sprintf("mux:%s:%v:%s:%s", mc.Kind, mc.Table, mc.Host, mc.User))
+		wg.Add(1)
+		sem <- struct{}{}
+		go func() {
+			defer func() { <-sem; wg.Done() }()
+			if e := runMuxer(mc.Kind, mc.Table, mc.Host, mc.User); e != "" {
+				mu.Lock()
+				c.ViolateConfirmed("mux", "mux:"+e, fmt.Sprintf("table %v: %s", mc.Table, e), mc, 2)
+				mu.Unlock()
+			}
+		}()
+	}
+	wg.Wait()
+	c.Note("muxer_tables", len(mtables))
 	c.Finish()
 }
